@@ -133,3 +133,42 @@ func VerifC20Start() {
 	rt.Assert((cerr != nil) == anyFail, "close-error-iff-failure")
 	rt.Reach("closed")
 }
+
+// VerifC20Lookup: a three-level nesting (root, child, grandchild) with names "a" and "b"; registrations and
+// lookups interleaved in any order.  At every moment a lookup in a container returns the component registered
+// under that name in the nearest container on the way up, or nil.
+func VerifC20Lookup() {
+	k := rt.Param("k", 4)
+	root := new(App)
+	apps := []*App{root, nil, nil}
+	apps[1] = apps[0].ChildApp()
+	apps[2] = apps[1].ChildApp()
+	names := []string{"a", "b"}
+	var logBuf []int
+	reg := [3][2]*vC20Comp{}
+	for step := 0; step < k; step++ {
+		level := rt.Choose(3)
+		ni := rt.Choose(2)
+		if rt.Choose(2) == 0 {
+			if reg[level][ni] != nil {
+				continue // a second registration under one name in one container panics by design
+			}
+			c := &vC20Comp{idx: level*2 + ni, name: names[ni], log: &logBuf}
+			apps[level].Register(c)
+			reg[level][ni] = c
+			continue
+		}
+		var want *vC20Comp
+		for l := level; l >= 0 && want == nil; l-- {
+			want = reg[l][ni]
+		}
+		got := apps[level].Component(names[ni])
+		if want == nil {
+			rt.Assert(got == nil, "unregistered-name-resolves-to-nothing")
+		} else {
+			gc, ok := got.(*vC20Comp)
+			rt.Assert(ok && gc == want, "name-resolves-locally-first-then-through-the-parents")
+		}
+		rt.Reach("looked-up")
+	}
+}
